@@ -429,7 +429,7 @@ static void dump(std::ostream& out) {
         // allocations of this lock period in order (size, alignment, block, offset in the block): replayed through the TempStore model
         for (size_t t = 0; t < em.temporal_storages_.size(); ++t) {
             auto& st = em.temporal_storages_[ThreadId::make(t)];
-            if (st.chunks_.empty() && st.actions_.empty()) continue;
+            if (st.chunks_.empty() && st.actions_.empty() && st.target_chunk_size_ == 4096u && st.total_size_ == 0u) continue;   // never used
             out << "Q " << t << " target=" << st.target_chunk_size_ << " total=" << st.total_size_ << " chunks=";
             for (size_t c = 0; c < st.chunks_.size(); ++c)
                 out << (c ? ";" : "") << (reinterpret_cast<uintptr_t>(st.chunks_[c].data.get()) % 4096) << ":" << st.chunks_[c].capacity << ":" << st.chunks_[c].free_space;
